@@ -519,3 +519,75 @@ func MapKeys[K comparable, V any](m map[K]V, site string) []K {
 	}
 	return out
 }
+
+// ---- package-level state of the instrumented packages
+//
+// A stateless explorer must start every execution from the same state. The instrumenter registers
+// every package-level variable of the library (RegisterGlobal runs during package initialisation,
+// after the variable's own initialiser); ResetGlobals puts each back to a copy of the value it had
+// then. Maps, slices and arrays are copied in depth, everything else by assignment (pointers,
+// interfaces, functions and channels keep their identity: sentinel errors must stay comparable).
+
+type global struct {
+	name string
+	ptr  reflect.Value // pointer to the variable
+	init reflect.Value // private copy of the initial value
+}
+
+var globals []global
+
+func copyValue(v reflect.Value) reflect.Value {
+	switch v.Kind() {
+	case reflect.Map:
+		if v.IsNil() {
+			return v
+		}
+		m := reflect.MakeMapWithSize(v.Type(), v.Len())
+		it := v.MapRange()
+		for it.Next() {
+			m.SetMapIndex(it.Key(), copyValue(it.Value()))
+		}
+		return m
+	case reflect.Slice:
+		if v.IsNil() {
+			return v
+		}
+		s := reflect.MakeSlice(v.Type(), v.Len(), v.Len())
+		for i := 0; i < v.Len(); i++ {
+			s.Index(i).Set(copyValue(v.Index(i)))
+		}
+		return s
+	case reflect.Array:
+		a := reflect.New(v.Type()).Elem()
+		for i := 0; i < v.Len(); i++ {
+			a.Index(i).Set(copyValue(v.Index(i)))
+		}
+		return a
+	}
+	return v
+}
+
+// RegisterGlobal records a package-level variable and its initial value. It returns true so that it
+// can be used as the initialiser of a blank variable.
+func RegisterGlobal(name string, ptr interface{}) bool {
+	p := reflect.ValueOf(ptr)
+	globals = append(globals, global{name: name, ptr: p, init: copyValue(p.Elem())})
+	return true
+}
+
+// ResetGlobals restores every registered variable to (a fresh copy of) its initial value.
+func ResetGlobals() {
+	for _, g := range globals {
+		g.ptr.Elem().Set(copyValue(g.init))
+	}
+}
+
+// GlobalNames lists the registered variables (for the evidence file).
+func GlobalNames() []string {
+	var out []string
+	for _, g := range globals {
+		out = append(out, g.name)
+	}
+	sort.Strings(out)
+	return out
+}
